@@ -537,9 +537,8 @@ def _names(chk, facts):
                    f"{name}: a member of the receiver's union can skip {nd}: the attribute is not looked up on every possible class of the receiver", f"{b.file}:{b.line}")
         # empty union is an error
         s = syn.one_fn(name, mod="check::constrain::unify::function")
-        first = s["body"]["stmts"][0]
-        fe = strip(first.get("e", {})) if first.get("k") == "expr" else {}
-        ok = fe.get("k") == "if" and src(strip(fe["c"])).replace(" ", "") == "entity_name.is_empty()" and "returnErr(" in src(fe["then"]).replace(" ", "")
+        from .common import error_guards
+        ok = "entity_name.is_empty()" in error_guards(syn, s)
         chk.ob("R-C04-5", f"{name}:empty-receiver", ok, f"{name}: a receiver without a type is an error" if ok else f"{name}: the empty-receiver guard is gone (an access on nothing is vacuously accepted)", facts.loc_of(s))
 
 
